@@ -433,6 +433,12 @@ def _subd(sp, tt, s, t):
     return common.run_driver([dict(base, op="check.subd", s=s, t=t)])[0].get("r")
 
 
+# model-vs-code comparisons of decision points that are known NOT to be exact on the unchanged tree
+# (`gen_new`: with two random instantiations of a blacklisted generic class the recorded outcome is not the
+# model's plan, replay kotlin/140893; found by the first fresh-copy run after the model was added)
+NONBINDING = {"gen_new:model-differs"}
+
+
 class _Reporter:
     """at most `cap` reports per signature and check run"""
 
@@ -441,6 +447,15 @@ class _Reporter:
 
     def __call__(self, obj, signature, no_input):
         self.n[signature] = self.n.get(signature, 0) + 1
+        if signature in NONBINDING:
+            # a correspondence that is not exact on the unchanged tree (the model is behind the code for some
+            # inputs, see DESIGN 0.2): differences are counted and sampled in the evidence, the programs
+            # concerned are still judged by the verified checker `check.wt`
+            self.run.tally("nonbinding_model_differences", signature)
+            smp = self.run.cov.setdefault("nonbinding_model_difference_samples", {}).setdefault(signature, [])
+            if len(smp) < 2:
+                smp.append({k: obj.get(k) for k in ("replay", "call", "model", "correspondence")})
+            return
         if self.n[signature] <= self.cap:
             self.run.violation(obj, signature=signature, no_input=no_input)
 
